@@ -98,7 +98,15 @@ class Gen:
             self.toks.append((r.choice(["8", "16", "1"]), "num")) if r.random() < 0.5 else self.kw(r.choice(["int", "signed", "unsigned", "byte"]))
             self.sym("'"); self.sym("("); self.expr(names, depth + 2); self.sym(")")
         elif y < 0.45:
-            self.sym("{"); self.toks.append((r.choice(["2", "3"]), "num")); self.sym("{"); self.expr(names, depth + 2); self.sym("}"); self.sym("}")
+            self.sym("{"); self.toks.append((r.choice(["2", "3"]), "num")); self.sym("{")
+            z = r.random()
+            if z < 0.3 and v:        # an operand that no constant expression can be (A.8.3: inc_or_dec_expression)
+                self.id(v); self.sym(r.choice(["++", "--"]))
+            elif z < 0.45 and v:
+                self.sym(r.choice(["++", "--"])); self.id(v)
+            else:
+                self.expr(names, depth + 2)
+            self.sym("}"); self.sym("}")
         elif y < 0.65 and v:
             self.id(v); self.sym("[")
             if r.random() < 0.5:
